@@ -184,6 +184,8 @@ pub struct Canon {
 	/// n0 with `announcement_received_time` (wall clock, ChannelInfo TLV 1) removed and every
 	/// node's channel-id list (NodeInfo TLV 4, a set kept as a list) sorted
 	pub n1: Vec<u8>,
+	/// n0 with only `announcement_received_time` removed (node channel lists in stored order)
+	pub n0s: Vec<u8>,
 	/// true if some node's channel list was not in ascending order in the raw encoding
 	pub node_list_unsorted: bool,
 }
@@ -218,7 +220,7 @@ pub fn canon(bytes: &[u8]) -> Result<Canon, String> {
 	chans.sort_by_key(|c| c.0);
 	nodes.sort_by(|a, b| a.0.cmp(&b.0));
 	let mut unsorted = false;
-	let build = |strip: bool, unsorted: &mut bool| {
+	let build = |strip: bool, sort_lists: bool, unsorted: &mut bool| {
 		let mut v = head.clone();
 		v.extend_from_slice(&nch.to_be_bytes());
 		for (scid, t) in &chans {
@@ -230,7 +232,7 @@ pub fn canon(bytes: &[u8]) -> Result<Canon, String> {
 		for (id, t) in &nodes {
 			v.extend_from_slice(id);
 			let mut t2 = t.clone();
-			if strip {
+			if sort_lists {
 				for (ty, val) in t2.iter_mut() {
 					if *ty == 4 && val.len() % 8 == 0 {
 						let mut ids: Vec<[u8; 8]> = val.chunks(8).map(|c| c.try_into().unwrap()).collect();
@@ -248,9 +250,10 @@ pub fn canon(bytes: &[u8]) -> Result<Canon, String> {
 		put_tlvs(&mut v, &trailer);
 		v
 	};
-	let n0 = build(false, &mut unsorted);
-	let n1 = build(true, &mut unsorted);
-	Ok(Canon { n0, n1, node_list_unsorted: unsorted })
+	let n0 = build(false, false, &mut unsorted);
+	let n0s = build(true, false, &mut unsorted);
+	let n1 = build(true, true, &mut unsorted);
+	Ok(Canon { n0, n1, n0s, node_list_unsorted: unsorted })
 }
 
 // ---------------------------------------------------------------------------------------------
